@@ -394,6 +394,7 @@ func (g *G) mapObjectPayload(meth *m.Method, hasBodyVerb bool) {
 	fields := g.d.ObjectFields(meth.Payload)
 	used := map[string]bool{}
 	inline := meth.Payload.Type.Kind == m.Object
+	g.inlinePayload = inline
 	var bodyFields []string
 	for _, f := range fields {
 		canPath, canQuery, canHeader, canCookie := g.mappable(f.Attr)
@@ -527,8 +528,8 @@ func (g *G) mapObjectPayload(meth *m.Method, hasBodyVerb bool) {
 // complements what the attribute's type already says (an alias with a Minimum
 // gets a Maximum, a plain string a MaxLength), so valid values exist.
 func (g *G) mappingBound(f *m.Field) {
-	if !g.p.Validations || !f.Attr.V.Empty() || f.Attr.Default != nil || rapid.IntRange(0, 3).Draw(g.t, "mapbound:"+f.Name) != 0 {
-		return
+	if !g.p.Validations || !f.Attr.V.Empty() || f.Attr.Default != nil || !g.inlinePayload || rapid.IntRange(0, 3).Draw(g.t, "mapbound:"+f.Name) != 0 {
+		return // (the fields of a user type payload belong to every user of the type)
 	}
 	_, chain := g.d.Resolve(f.Attr)
 	mv := mergedValidation(chain)
